@@ -327,6 +327,35 @@ class Machine(object):
             if r is True: return shallow_restrict(v, g)
             out = merge(x, v, out)
         return shallow_restrict(out, g)
+    def load_typed(s, ref, g, tys):
+        """load through a reference keeping only the targets whose value is a struct of one of the expected types: alternatives of
+        another type can only be selected under an infeasible guard (typed pointers never alias differently typed storage)"""
+        if not isinstance(ref, Ref): return None
+        out = None
+        for x, c, p in reversed(ref.tg):
+            r = implied(g, x)
+            if r is False: continue
+            base = s.slot_get(c) if type(c) is Slot else c.val
+            v = s.getpath(base, p)
+            if isinstance(v, Mix):
+                vv = None
+                for y, a in reversed(v.alts):
+                    if isinstance(a, St) and a.ty in tys: vv = merge(y, a, vv)
+                v = vv
+            if not (isinstance(v, St) and v.ty in tys): continue
+            out = merge(x, v, out)
+        return shallow_restrict(out, g) if out is not None else None
+    def typed_ref(s, ref, g, tys):
+        """the reference restricted to targets holding a struct of one of the expected types"""
+        if not isinstance(ref, Ref): return Ref([])
+        if len(ref.tg) <= 1: return ref
+        tg = []
+        for x, c, p in ref.tg:
+            base = s.slot_get(c) if type(c) is Slot else c.val
+            v = s.getpath(base, p)
+            ok = (isinstance(v, St) and v.ty in tys) or (isinstance(v, Mix) and any(isinstance(a, St) and a.ty in tys for _, a in v.alts))
+            if ok: tg.append((x, c, p))
+        return Ref(tg) if tg else ref
     def store(s, ref, val, g):
         if g is FALSE or not isinstance(ref, Ref): return
         single = len(ref.tg) == 1
